@@ -73,12 +73,18 @@ func (ta *trimAnalysis) run(fn *ssa.Function, helper bool) (viol map[string]stri
 		}
 		if u, ok := v.(*ssa.UnOp); ok && u.Op == token.MUL {
 			if al, ok := u.X.(*ssa.Alloc); ok {
-				if st.facts[cellKey(al)] != "raw" {
-					return
+				// the state of the cell when this value was loaded from it (the cell may have been overwritten since:
+				// `last = res` ... `res, ok = <-ch` ... `return last`)
+				state, known := st.facts["snap:"+u.Name()]
+				if !known {
+					state = st.facts[cellKey(al)]
+					f := st.facts["load:"+chainOf(al)+".Status"]
+					if strings.HasPrefix(f, "!="+ta.sat) || (strings.HasPrefix(f, "=") && f != "="+ta.sat) {
+						state = "notsat"
+					}
 				}
-				f := st.facts["load:"+chainOf(al)+".Status"]
-				if strings.HasPrefix(f, "!="+ta.sat) || (strings.HasPrefix(f, "=") && f != "="+ta.sat) {
-					return // known not Sat: there is no model
+				if state != "raw" {
+					return
 				}
 				viol[what+" at "+w.InstrPos(ins)] = "the result is " + what + " on a path where it may be Sat and its model has not been cut at the first relaxation variable"
 			}
@@ -86,6 +92,16 @@ func (ta *trimAnalysis) run(fn *ssa.Function, helper bool) (viol map[string]stri
 	}
 	pairs, trunc = explore(fn.Blocks[0], &pstate{phi: map[*ssa.Phi]ssa.Value{}, facts: map[string]string{}}, nil, func(ins ssa.Instruction, st *pstate) {
 		switch x := ins.(type) {
+		case *ssa.UnOp:
+			// a whole Result loaded from a cell: remember the state of the cell at this moment
+			if al, ok := x.X.(*ssa.Alloc); ok && x.Op == token.MUL && isResultType(x.Type()) {
+				state := st.facts[cellKey(al)]
+				f := st.facts["load:"+chainOf(al)+".Status"]
+				if strings.HasPrefix(f, "!="+ta.sat) || (strings.HasPrefix(f, "=") && f != "="+ta.sat) {
+					state = "notsat"
+				}
+				st.facts["snap:"+x.Name()] = state
+			}
 		case *ssa.Store:
 			switch a := x.Addr.(type) {
 			case *ssa.Alloc:
@@ -102,9 +118,21 @@ func (ta *trimAnalysis) run(fn *ssa.Function, helper bool) (viol map[string]stri
 					st.facts[cellKey(a)] = "raw"
 				} else if u, ok := val.(*ssa.UnOp); ok && u.Op == token.MUL {
 					if src, ok := u.X.(*ssa.Alloc); ok {
-						st.facts[cellKey(a)] = st.facts[cellKey(src)]
-						if f, ok := st.facts["load:"+chainOf(src)+".Status"]; ok {
-							st.facts["load:"+chainOf(a)+".Status"] = f
+						if snap, known := st.facts["snap:"+u.Name()]; known {
+							// the value was loaded earlier: what counts is the state of the source cell at that moment
+							switch snap {
+							case "notsat":
+								st.facts[cellKey(a)] = "trimmed"
+							case "":
+								delete(st.facts, cellKey(a))
+							default:
+								st.facts[cellKey(a)] = snap
+							}
+						} else {
+							st.facts[cellKey(a)] = st.facts[cellKey(src)]
+							if f, ok := st.facts["load:"+chainOf(src)+".Status"]; ok {
+								st.facts["load:"+chainOf(a)+".Status"] = f
+							}
 						}
 					}
 				} else {
